@@ -803,6 +803,8 @@ type engine struct {
 	sync     []int
 	pref     int
 	builtVer bool
+	midReject bool
+	finishErr int
 	stats    map[string]int
 }
 
@@ -813,7 +815,13 @@ func newEngine(r *rand.Rand, n *node, cfg cfgT) *engine {
 }
 
 func (e *engine) do(o opT) obsT {
+	if o.K == "finishSync" {
+		e.midReject = e.openRejection()
+	}
 	ob := e.n.exec(o)
+	if o.K == "finishSync" && ob.R.K == "err" {
+		e.finishErr = ob.R.Code
+	}
 	e.ops = append(e.ops, o)
 	e.obs = append(e.obs, ob)
 	e.stats[o.K]++
@@ -1005,10 +1013,51 @@ func (e *engine) rejectDoomed(all bool) {
 	}
 }
 
+// closeRejections finishes the engine's transitive rejections: a processing block whose parent
+// was rejected is rejected too.
+func (e *engine) closeRejections() {
+	for {
+		done := true
+		for _, b := range e.procIDs() {
+			if e.rejected[e.parent[b]] {
+				e.do(opT{K: "reject", A: e.proc[b]})
+				done = false
+			}
+		}
+		if done {
+			return
+		}
+	}
+}
+
+func (e *engine) openRejection() bool {
+	for _, b := range e.procIDs() {
+		if e.rejected[e.parent[b]] {
+			return true
+		}
+	}
+	return false
+}
+
+// makeMidReject: x, z children of the last accepted block, y child of x; accept z, reject x only.
+func (e *engine) makeMidReject() {
+	l := e.last
+	x := e.do(opT{K: "parseNew", A: l})
+	e.do(opT{K: "verify", A: x.R.H})
+	y := e.do(opT{K: "parseNew", A: x.R.B})
+	e.do(opT{K: "verify", A: y.R.H})
+	z := e.do(opT{K: "parseNew", A: l})
+	e.do(opT{K: "verify", A: z.R.H})
+	e.do(opT{K: "accept", A: z.R.H})
+	e.do(opT{K: "reject", A: x.R.H})
+}
+
 func (e *engine) canAccept() bool { return !e.ready || e.pending < e.cfg.Q }
 
 func (e *engine) acceptOne(b int) {
-	e.do(opT{K: "accept", A: e.proc[b]})
+	if e.do(opT{K: "accept", A: e.proc[b]}).R.K != "unit" {
+		return
+	}
 	if e.ready && e.r.Intn(2) == 0 {
 		e.do(opT{K: "process"})
 	}
@@ -1220,13 +1269,23 @@ func genSync(t *testing.T, r *rand.Rand, kind string, hd *holder) (*engine, erro
 			e.lookups(1)
 		}
 	}
+	if kind == "sync-midreject" {
+		e.closeRejections()
+		e.makeMidReject()
+	} else {
+		e.closeRejections()
+	}
 	// finish at the tip or at an ancestor accepted since the target
 	t0 := e.sync[len(e.sync)-1]
 	if r.Intn(5) < 3 && len(e.sync) > 1 {
 		t0 = e.sync[r.Intn(len(e.sync))]
 	}
 	e.do(opT{K: "health"})
-	e.do(opT{K: "finishSync", A: t0})
+	fin := e.do(opT{K: "finishSync", A: t0})
+	if fin.R.K != "unit" {
+		e.lookups(4)
+		return e, nil
+	}
 	e.do(opT{K: "health"})
 	e.do(opT{K: "lastProcessed"})
 	e.do(opT{K: "preferred"})
@@ -1283,6 +1342,12 @@ func (e *engine) emit(kind string, builtClause bool) emit.Case {
 		fmt.Sprintf("%d", e.cfg.Q), coqList(initEvs, "event"),
 		coqList(ops, "op"), coqList(obs, "res * list event"), emit.Bool(builtClause))
 	sig := "lifecycle-or-lookup-violated"
+	if strings.HasPrefix(kind, "sync") {
+		sig = "handover-violated"
+		if e.midReject && e.finishErr == 1 {
+			sig = "finish-fails-not-found-while-a-processing-block-has-a-rejected-parent"
+		}
+	}
 	if builtClause {
 		sig = "built-block-verify-not-delivered-to-verified-subscribers"
 	}
@@ -1362,7 +1427,7 @@ func TestDriver(t *testing.T) {
 		seed := r.Int63()
 		var kind string
 		if env.Prop == "C21" {
-			kind = []string{"sync-mixed", "sync-mixed", "sync-valid"}[i%3]
+			kind = []string{"sync-mixed", "sync-mixed", "sync-valid", "sync-mixed", "sync-mixed", "sync-valid", "sync-midreject"}[i%7]
 		} else {
 			kind = []string{"mixed", "parse-only", "mixed", "deep"}[i%4]
 		}
